@@ -7,13 +7,12 @@ import UBidi.Lemmas.ExpandPipelineC09
 namespace UBidi.Props.C09Levels
 open UBidi UBidi.Props.C09
 
-theorem C09_levels (ds : DataSource) (u : List Nat) (h16 : ∀ x ∈ u, x < 65536) (d : Option Nat)
-    (hfsi16 : C02.FSIWidth ds (t16 u)) (hfsi8 : C02.FSIWidth ds (t8 u)) :
+theorem C09_levels (ds : DataSource) (u : List Nat) (h16 : ∀ x ∈ u, x < 65536) (d : Option Nat) :
     (t16 u).segs.map (fun s => (bidiInfo ds (t16 u) d).levels.getD s.start 0)
       = (t8 u).segs.map (fun s => (bidiInfo ds (t8 u) d).levels.getD s.start 0) ∧
     (t16 u).segs.map (fun s => (paragraphBidiInfo ds (t16 u) d).levels.getD s.start 0)
       = (t8 u).segs.map (fun s => (paragraphBidiInfo ds (t8 u) d).levels.getD s.start 0) :=
-  UBidi.Expand.PipelineC09.C09_levels ds u h16 d hfsi16 hfsi8
+  UBidi.Expand.PipelineC09.C09_levels ds u h16 d
 
 theorem C09_levels_hardcoded (u : List Nat) (h16 : ∀ x ∈ u, x < 65536) (d : Option Nat) :
     (t16 u).segs.map (fun s => (bidiInfo hardcoded (t16 u) d).levels.getD s.start 0)
@@ -23,8 +22,8 @@ theorem C09_levels_hardcoded (u : List Nat) (h16 : ∀ x ∈ u, x < 65536) (d : 
   UBidi.Expand.PipelineC09.C09_levels_hardcoded u h16 d
 
 /-- and all units of a character carry that level, so agreement at the first unit is agreement everywhere -/
-theorem C09_levels_uniform (ds : DataSource) (t : Text) (d : Option Nat) (hwf : t.WF) (hfsi : C02.FSIWidth ds t) :
+theorem C09_levels_uniform (ds : DataSource) (t : Text) (d : Option Nat) (hwf : t.WF) :
     Expand.UniformOn t (bidiInfo ds t d).levels ∧ Expand.UniformOn t (paragraphBidiInfo ds t d).levels :=
-  UBidi.Expand.PipelineC09.C09_levels_uniform ds t d hwf hfsi
+  UBidi.Expand.PipelineC09.C09_levels_uniform ds t d hwf
 
 end UBidi.Props.C09Levels
